@@ -31,7 +31,14 @@ Inductive argval :=
 | VTuple (l : list value)
 | VDict (d : list (name * value)).
 
-(* keys of the dict returned by filter_args: a parameter name, '*' or '**' *)
+(* keys of the dict returned by filter_args: a parameter name, '*' or '**'.
+   [KStar]/[KStarStar] are the two keys the code writes itself.  A KEYWORD ARGUMENT may be spelled '*' or '**'
+   too (f(1, **{'*': 5}) is legal when f has **kwargs): it is an ordinary [name] (the harness gives these
+   spellings their own integer codes) and can only ever appear INSIDE the [VDict] stored under [KStarStar],
+   never as a top-level key: the code inserts '**' and '*' AFTER the loop that tests `arg_name in arg_dict`,
+   so at that point arg_dict holds parameter names only, and a parameter cannot be named '*'.  Hence
+   [KName n] never has to equal [KStar], no information is lost by the unchanged code, and an ignore item
+   '*' / '**' always denotes [KStar] / [KStarStar]. *)
 Inductive key := KName (n : name) | KStar | KStarStar.
 
 Definition binding := list (name * argval).   (* BoundArguments.arguments, in parameter order *)
